@@ -273,14 +273,16 @@ class Equation:
         """
         Return a list of ranks in the tensor
         """
+        # Walk the index expressions in the order written, so that ranks are
+        # listed in order of first appearance whether or not they carry a
+        # coefficient
         str_ranks = []
-        for ijust in ranks.find_data("ijust"):
-            rank = ParseUtils.next_str(ijust).upper()
-            str_ranks.append(rank)
+        for term in ranks.iter_subtrees_topdown():
+            if term.data == "ijust":
+                str_ranks.append(ParseUtils.next_str(term).upper())
 
-        for itimes in ranks.find_data("itimes"):
-            rank = str(itimes.children[1]).upper()
-            str_ranks.append(rank)
+            elif term.data == "itimes":
+                str_ranks.append(str(term.children[1]).upper())
 
         return str_ranks
 
